@@ -14,17 +14,18 @@
 (*       bound and prints it as a schedule that the harness replays on     *)
 (*       the real ElysApp.                                                  *)
 (***************************************************************************)
-EXTENDS Contracts, Json
+EXTENDS Contracts, Json, SequencesExt
 
 CONSTANTS Users,        \* e.g. {"u1","u2"}
           PoolIds,      \* e.g. {"1"} or {"1","2"}
           Creator,      \* the user who created the pools (holds the initial shares)
           MaxLen,       \* bound on behaviour length
-          Emit          \* TRUE: print every behaviour of length MaxLen as a schedule
+          Emit,         \* TRUE: print every behaviour of length MaxLen as a schedule
+          Alphabet      \* "ledger": every action, plain swap requests; "batch": swap requests in all variants + blocks only
 
-VARIABLES bank, pools, committed, total, vault, now, ev, hist
+VARIABLES bank, pools, committed, total, vault, now, queue, ev, hist
 
-vars == <<bank, pools, committed, total, vault, now, ev, hist>>
+vars == <<bank, pools, committed, total, vault, now, queue, ev, hist>>
 
 Denoms      == {"uusdc", "uatom"}
 ShareOf(p)  == "amm/pool/" \o p
@@ -40,13 +41,14 @@ Amt(z)      == CASE z = 1 -> 1 [] z = 2 -> 12 [] z = 3 -> 40
 (* The abstract state in the shape of DESIGN.md §3.1 *)
 St == [
   chain  |-> [h |-> 0, t |-> now],
+  users  |-> SetToSeq(Users),
   bank   |-> bank,
   supply |-> [d \in AllD |-> SumOver(Accts, LAMBDA a : bank[a][d])],
   amm    |-> [pools |-> [p \in PoolIds |->
                 [addr |-> PoolAddr(p), treasury |-> "treasury:" \o p, shares |-> pools[p].shares, shareDenom |-> ShareOf(p), useOracle |-> FALSE,
                  assets |-> [d \in Denoms |-> [amt |-> pools[p].res[d], weight |-> 1, weightI |-> 1]]]],
              denomLiq |-> [d \in Denoms |-> SumOver(PoolIds, LAMBDA p : pools[p].res[d])],
-             queue |-> 0],
+             queue |-> Len(queue)],
   commit |-> [total |-> total,
               acct |-> [a \in Users |-> [kind |-> "user", claimed |-> << >>, vesting |-> << >>,
                                          committed |-> [d \in DOMAIN committed[a] |-> [amt |-> committed[a][d], lockups |-> << >>]]]]],
@@ -54,12 +56,14 @@ St == [
   lev    |-> [pools |-> << >>, positions |-> << >>, openCount |-> 0],
   perp   |-> [pools |-> << >>, mtps |-> << >>, openCount |-> 0, tpFlag |-> FALSE],
   acc    |-> << >>,
+  oracle |-> [prices |-> << >>, feeders |-> << >>, assetInfo |-> << >>, expiry |-> 0, lifetime |-> 0, lookup |-> << >>, lookupDenom |-> << >>],
+  ts     |-> [spot |-> << >>, perp |-> << >>],
   mc     |-> [user |-> << >>, accPerShare |-> << >>, incentives |-> << >>, stablePoolId |-> "32767"] ]
 
-NoGhost == GhostInit(St)
+NoGhost == [GhostInit(St) EXCEPT !.batch = [reqs |-> queue, opaque |-> FALSE]]
 
 -----------------------------------------------------------------------------
-Ev(name, sender, args, resp) == [name |-> name, sender |-> sender, ok |-> TRUE, args |-> args, resp |-> resp]
+Ev(name, sender, args, resp) == [name |-> name, sender |-> sender, ok |-> TRUE, log |-> "", stage |-> "msgs", args |-> args, resp |-> resp, abci |-> << >>]
 
 Move(b, from, to, d, x) == [b EXCEPT ![from][d] = @ - x, ![to][d] = @ + x]
 
@@ -76,6 +80,7 @@ Init ==
   /\ total = [d \in {ShareOf(p) : p \in PoolIds} |-> 100]
   /\ vault = 0
   /\ now = 0
+  /\ queue = << >>
   /\ ev = Ev("Init", "", << >>, << >>)
   /\ hist = << >>
 
@@ -87,18 +92,23 @@ CommitTo(c, a, d, x)   == [c EXCEPT ![a] = [dd \in DOMAIN c[a] \cup {d} |-> (IF 
 TotalAdd(tt, d, x)     == [dd \in DOMAIN tt \cup {d} |-> (IF dd \in DOMAIN tt THEN tt[dd] ELSE 0) + (IF dd = d THEN x ELSE 0)]
 Com(a, d)              == IF d \in DOMAIN committed[a] THEN committed[a][d] ELSE 0
 
-\* amm SwapExactAmountIn on a constant-product pool: out = floor(y * a / (x + a))
-SwapIn(u, p, din, z) ==
+\* amm SwapExactAmountIn: the transaction only dry-runs the swap (out = floor(y * a / (x + a)) on a constant-product pool)
+\* and QUEUES the request; the end-of-block batch settles it.
+SwapOutFor(ps, p, din, a) ==
+  LET dout == CHOOSE d \in Denoms : d # din IN (ps[p].res[dout] * a) \div (ps[p].res[din] + a)
+SwapIn(u, p, din, z, lim, rc) ==
   LET dout == CHOOSE d \in Denoms : d # din
-      a == Amt(z)  x == pools[p].res[din]  y == pools[p].res[dout]
-      out == (y * a) \div (x + a)
+      a == Amt(z)
+      out == SwapOutFor(pools, p, din, a)
+      minOut == IF lim = "tight" THEN out ELSE 1
   IN /\ Common
-     /\ bank[u][din] >= a /\ out > 0 /\ out < y
-     /\ bank' = Move(Move(bank, u, PoolAddr(p), din, a), PoolAddr(p), u, dout, out)
-     /\ pools' = [pools EXCEPT ![p].res[din] = @ + a, ![p].res[dout] = @ - out]
-     /\ UNCHANGED <<committed, total, vault, now>>
-     /\ ev' = Ev("amm.MsgSwapExactAmountIn", u, [pool |-> p, din |-> din, ain |-> a, dout |-> dout], [out |-> out])
-     /\ Step([a |-> "swapIn", u |-> u, p |-> p, din |-> din, sz |-> SizeClass(z), limit |-> "loose"])
+     /\ Len(queue) < 3
+     /\ bank[u][din] >= a /\ out > 0 /\ out < pools[p].res[dout]
+     /\ queue' = Append(queue, [kind |-> "in", sender |-> u, rcpt |-> rc, route |-> <<p>>, denoms |-> <<din, dout>>, amt |-> a, limit |-> minOut])
+     /\ UNCHANGED <<bank, pools, committed, total, vault, now>>
+     /\ ev' = Ev("amm.MsgSwapExactAmountIn", u, [pool |-> p, din |-> din, ain |-> a, dout |-> dout, minOut |-> minOut, rcpt |-> rc,
+                                                 route |-> <<p>>, denoms |-> <<din, dout>>], [out |-> out])
+     /\ Step([a |-> "swapIn", u |-> u, p |-> p, din |-> din, sz |-> SizeClass(z), limit |-> lim, rcpt |-> rc])
 
 \* amm JoinPool (all assets): deposit rounded up, shares as requested
 Join(u, p, z) ==
@@ -115,7 +125,7 @@ Join(u, p, z) ==
      /\ pools' = [pools EXCEPT ![p].shares = @ + k, ![p].res = [d \in Denoms |-> @[d] + need[d]]]
      /\ committed' = CommitTo(committed, u, ShareOf(p), k)
      /\ total' = TotalAdd(total, ShareOf(p), k)
-     /\ UNCHANGED <<vault, now>>
+     /\ UNCHANGED <<vault, now, queue>>
      /\ ev' = Ev("amm.MsgJoinPool", u, [pool |-> p, maxIn |-> need, shareOut |-> k], [shareOut |-> k, tokenIn |-> need])
      /\ Step([a |-> "join", u |-> u, p |-> p, sz |-> SizeClass(z), mode |-> "all"])
 
@@ -135,7 +145,7 @@ Exit(u, p, f) ==
      /\ pools' = [pools EXCEPT ![p].shares = @ - k, ![p].res = [d \in Denoms |-> @[d] - out[d]]]
      /\ committed' = CommitTo(committed, u, ShareOf(p), 0 - k)
      /\ total' = TotalAdd(total, ShareOf(p), 0 - k)      \* the specification subtracts (the implementation's known finding C12-1 adds)
-     /\ UNCHANGED <<vault, now>>
+     /\ UNCHANGED <<vault, now, queue>>
      /\ ev' = Ev("amm.MsgExitPool", u, [pool |-> p, shareIn |-> k, denomOut |-> ""], [tokenOut |-> out])
      /\ Step([a |-> "exit", u |-> u, p |-> p, frac |-> f])
 
@@ -150,7 +160,7 @@ Bond(u, z) ==
      /\ committed' = CommitTo(committed, u, VShare, sh)
      /\ total' = TotalAdd(total, VShare, sh)
      /\ vault' = vault + a
-     /\ UNCHANGED <<pools, now>>
+     /\ UNCHANGED <<pools, now, queue>>
      /\ ev' = Ev("stablestake.MsgBond", u, [amt |-> a], << >>)
      /\ Step([a |-> "bond", u |-> u, sz |-> ToString(a * 1000000)])
 
@@ -164,27 +174,52 @@ Unbond(u, f) ==
      /\ committed' = CommitTo(committed, u, VShare, 0 - k)
      /\ total' = TotalAdd(total, VShare, 0 - k)
      /\ vault' = vault - pay
-     /\ UNCHANGED <<pools, now>>
+     /\ UNCHANGED <<pools, now, queue>>
      /\ ev' = Ev("stablestake.MsgUnbond", u, [shares |-> k], << >>)
      /\ Step([a |-> "unbond", u |-> u, frac |-> f])
 
 \* a third party sends tokens straight to the pool address (outside the protocol)
 \* — kept out of the exhaustive alphabet by default; the harness has a dedicated driver for it.
 
+\* End of block: the batch settles the queued requests one at a time in the order `ord` (the implementation picks by
+\* store key; the contract must hold for EVERY order, so the model explores all of them).  A request that cannot be
+\* honoured when its turn comes (limit, funds) is dropped without any effect.
+RECURSIVE Settle(_, _, _, _, _)
+Settle(ord, i, b, ps, evs) ==
+  IF i > Len(ord) THEN [bank |-> b, pools |-> ps, evs |-> evs]
+  ELSE LET r == queue[ord[i]]
+           p == r.route[1]  din == r.denoms[1]  dout == r.denoms[2]
+           out == SwapOutFor(ps, p, din, r.amt)
+           okR == b[r.sender][din] >= r.amt /\ out >= r.limit /\ out > 0 /\ out < ps[p].res[dout]
+       IN IF okR
+            THEN Settle(ord, i + 1, Move(Move(b, r.sender, PoolAddr(p), din, r.amt), PoolAddr(p), r.rcpt, dout, out),
+                        [ps EXCEPT ![p].res[din] = @ + r.amt, ![p].res[dout] = @ - out],
+                        Append(evs, [type |-> "token_swapped", mode |-> "EndBlock", sender |-> r.sender, recipient |-> r.rcpt, pool_id |-> p,
+                                     in_amt |-> r.amt, in_denom |-> din, out_amt |-> out, out_denom |-> dout]))
+            ELSE Settle(ord, i + 1, b, ps, evs)
+Orders == {o \in [1..Len(queue) -> 1..Len(queue)] : \A i, j \in 1..Len(queue) : i # j => o[i] # o[j]}
 Block ==
   /\ Common
   /\ hist # << >> => hist[Len(hist)].a # "block"
   /\ now' = now + 5
-  /\ UNCHANGED <<bank, pools, committed, total, vault>>
-  /\ ev' = Ev("EndBlock", "", << >>, << >>)
+  /\ \E ord \in Orders :
+       LET fin == Settle(ord, 1, bank, pools, << >>) IN
+       /\ bank' = fin.bank /\ pools' = fin.pools
+       /\ ev' = [Ev("EndBlock", "", << >>, << >>) EXCEPT !.abci = fin.evs]
+  /\ queue' = << >>
+  /\ UNCHANGED <<committed, total, vault>>
   /\ Step([a |-> "block", dt |-> 5])
 
 Next ==
-  \/ \E u \in Users, p \in PoolIds, d \in Denoms, z \in Sizes : SwapIn(u, p, d, z)
-  \/ \E u \in Users, p \in PoolIds, z \in Sizes : Join(u, p, z)
-  \/ \E u \in Users, p \in PoolIds, f \in {"third", "half", "all"} : Exit(u, p, f)
-  \/ \E u \in Users, z \in {1, 3} : Bond(u, z)
-  \/ \E u \in Users, f \in {"half", "all"} : Unbond(u, f)
+  \/ /\ Alphabet = "ledger"
+     /\ \/ \E u \in Users, p \in PoolIds, d \in Denoms, z \in Sizes : SwapIn(u, p, d, z, "loose", u)
+        \/ \E u \in Users, p \in PoolIds, z \in Sizes : Join(u, p, z)
+        \/ \E u \in Users, p \in PoolIds, f \in {"third", "half", "all"} : Exit(u, p, f)
+        \/ \E u \in Users, z \in {1, 3} : Bond(u, z)
+        \/ \E u \in Users, f \in {"half", "all"} : Unbond(u, f)
+  \/ /\ Alphabet = "batch"
+     /\ \/ \E u \in Users, p \in PoolIds, d \in Denoms, z \in Sizes, lim \in {"loose", "tight"}, rc \in Users : SwapIn(u, p, d, z, lim, rc)
+        \/ \E u \in Users, p \in PoolIds : Join(u, p, 3)
   \/ Block
 
 Spec == Init /\ [][Next]_vars
@@ -201,5 +236,5 @@ StepOK == [][StepContract]_vars
 EmitSchedule == (Emit /\ Len(hist) = MaxLen) => PrintT(<<"SCHED", ToJson(hist)>>)
 
 Bound == Len(hist) <= MaxLen
-View  == <<bank, pools, committed, total, vault>>
+View  == <<bank, pools, committed, total, vault, queue>>
 =============================================================================
